@@ -8,6 +8,7 @@ import hashlib
 import json
 import math
 import os
+import re
 import traceback
 
 VERIF_DIR = os.path.dirname(os.path.dirname(os.path.abspath(__file__)))
@@ -157,6 +158,8 @@ class KnownFindings:
             if e.get("kind") is not None and e["kind"] != failure.kind:
                 continue
             if e.get("site") is not None and e["site"] != failure.site:
+                continue
+            if e.get("site_regex") is not None and not re.fullmatch(e["site_regex"], failure.site):
                 continue
             when = e.get("when") or {}
             if all(failure.tags.get(k) == v for k, v in when.items()):
